@@ -80,6 +80,7 @@ def run_batch(worker, prop, tier, seed, batch, nbatch, rundir, timeout_s, racelo
         env = dict(os.environ)
         env["VERIF_WORKER"] = worker
         env["GOTRACEBACK"] = "all"
+        env["VERIF_TMP"] = d
         if racelog:
             env["GORACE"] = "halt_on_error=0 log_path=%s" % os.path.join(racelog, "b%d.s%d" % (batch, seg))
         def limit():
